@@ -80,6 +80,6 @@ pub struct Snapshot<T: crate::time::Instant> {
     pub blocking_active: bool,
     /// None, Some(None) = all machines, Some(Some(i)) = all except i
     pub signal_pending: Option<Option<usize>>,
-    pub counter_zeroed_once: (bool, bool),
+    pub counter_zeroed_once: Vec<(bool, bool)>,
     pub framework_start: T,
 }
